@@ -852,10 +852,11 @@ pub fn check() -> Check {
     Check::new(
         "C43",
         "Non-fungible ids are never reused and data changes are restricted",
-        "histories of 1-40 operations in transactions of 1-4 (the first operation the model rejects ends its transaction) on the standard world's four non-fungible resources (Integer: all roles open; String: mint/burn/update need a badge proof; Bytes: update closed; RUID: open): mint of 1-3 explicit ids from a per-resource pool of 6 (3 live at start, 3 never minted; 1 in 12 draws takes an id of another resource's type), mint_ruid of 1-3, mint_single_ruid, burn from a bucket (withdrawn from the holding account or taken from the worktop), burn inside the account's vault, burn of everything minted in the transaction, update_non_fungible_data of b / c (mutable), a (immutable) or an unknown field name on live / burned / never-minted ids, get_non_fungible, non_fungible_exists, dropping the badge proof mid-transaction; with and without the badge proof. Non-trivial = the history attempts a re-mint of a burned id (roles satisfied) or an update of the immutable field (roles satisfied). Distinct = distinct decoded choice sequences.",
+        "histories of 1-40 operations in transactions of 1-4 (the first operation the model rejects ends its transaction) on the standard world's four non-fungible resources (Integer: all roles open; String: mint/burn/update need a badge proof; Bytes: update closed; RUID: open): mint of 1-3 explicit ids from a per-resource pool of 6 (3 live at start, 3 never minted; 1 in 12 draws takes an id of another resource's type), mint_ruid of 1-3, mint_single_ruid, burn from a bucket (withdrawn from the holding account or taken from the worktop), burn inside the account's vault, burn of everything minted in the transaction, update_non_fungible_data of b / c (mutable), a (immutable) or an unknown field name on live / burned / never-minted ids, get_non_fungible, non_fungible_exists, dropping the badge proof mid-transaction; with and without the badge proof. Non-trivial = the history attempts a re-mint of a burned id (roles satisfied) or an update of the immutable field (roles satisfied). Distinct = distinct decoded choice sequences. Part empty-data: histories of 1-20 operations in transactions of 1-3 on two resources created by the part's own world set-up whose data type has no fields (Integer and String ids, all roles open, 3 initial ids): mint of 1-2 ids from a 6-id pool (biased to burned ids; 1 in 11 of another id type), burn from a bucket / inside the vault / of an id minted in the same transaction, update_non_fungible_data with any field name (always an unknown field), get_non_fungible, non_fungible_exists; non-trivial = a re-mint of a burned id is attempted.",
     )
     .assume("initial data of the world's non-fungibles is read from the frozen world's data partition once per case; the holder of every id is tracked by the model (withdrawals are signed by all four accounts)")
     .assume("the representation of a burned id (entry without value) is only used to learn RUID ids that were minted and burned inside one transaction; the verdicts rest on transaction outcomes, returned values, the raw live entries and the vault scan")
     .part(Part::new("histories", 5_000, 300_000, 700, case).fixed(fixed_tapes()))
+    .part(crate::c43e::part())
     .min_nontrivial_pct(15.0)
 }
